@@ -74,7 +74,8 @@ def random_geometry_recipe(rng, kind):
         if u < 0.008:
             # more than 65535 vertices with many faces / with fewer than 65535 faces (an unmerged soup)
             r["mesh"]["base"], r["shape"] = "grid260", ("large_index" if u < 0.004 else "large_soup")
-        r["colors"] = rng.choice([None, None, "vertex", "face"])
+        r["colors"] = rng.choice([None, None, "vertex", "face", "texture"])
+        r["attributes"] = rng.random() < 0.3
     elif kind == "scene":
         r["parts"] = [meshes.random_recipe(rng, bases=["tetra", "box", "octa", "prism5"], variants=["plain"]) for _ in range(rng.randint(1, 3))]
         r["instances"] = [[rng.randrange(3), rng.randrange(4), rng.choice(["identity", "translation", "rigid", "similarity"])] for _ in range(rng.randint(1, 4))]
@@ -117,6 +118,15 @@ def build_geometry(r):
             m.visual.vertex_colors = np.column_stack([rs.randint(0, 256, (len(V), 3)), np.full(len(V), 255)]).astype(np.uint8)
         elif r.get("colors") == "face" and len(F):
             m.visual.face_colors = np.column_stack([rs.randint(0, 256, (len(F), 3)), np.full(len(F), 255)]).astype(np.uint8)
+        elif r.get("colors") == "texture" and len(V) and len(V) < 5000:
+            from PIL import Image
+
+            img = Image.fromarray(rs.randint(0, 256, (4, 4, 3), dtype=np.uint8))
+            uv = np.round(rs.uniform(0.05, 0.95, (len(V), 2)), 4)
+            m.visual = trimesh.visual.TextureVisuals(uv=uv, material=trimesh.visual.material.SimpleMaterial(image=img))
+        if r.get("attributes") and len(F) and len(V) < 5000:
+            m.face_attributes["quality"] = np.arange(len(F), dtype=np.float32) * 0.5
+            m.vertex_attributes["weight"] = np.arange(len(V), dtype=np.float32) * 0.25
         return m
     if kind == "scene":
         import random
@@ -209,6 +219,12 @@ def content(obj):
             c["corner_colors"] = np.asarray(obj.visual.vertex_colors)[np.asarray(obj.faces)]
         if obj.visual.kind == "face":
             c["face_colors"] = np.asarray(obj.visual.face_colors)
+        if obj.visual.kind == "texture" and getattr(obj.visual, "uv", None) is not None and len(obj.faces) and len(obj.visual.uv) == len(obj.vertices):
+            c["corner_uv"] = np.asarray(obj.visual.uv, dtype=float)[np.asarray(obj.faces)]
+        if "quality" in obj.face_attributes:
+            c["face_quality"] = np.asarray(obj.face_attributes["quality"], dtype=float).reshape(-1)
+        if "weight" in obj.vertex_attributes and len(obj.faces):
+            c["corner_weight"] = np.asarray(obj.vertex_attributes["weight"], dtype=float).reshape(-1)[np.asarray(obj.faces)]
         return c
     if isinstance(obj, trimesh.PointCloud):
         c = {"kind": "points", "pts": np.asarray(obj.vertices, dtype=float)}
@@ -291,14 +307,23 @@ def export_payload(obj, fmt, opts=None):
         # a path is exported to glTF through a scene
         data = trimesh.Scene(obj).export(file_type="glb")
         return {"model.glb": data}, "model.glb", "glb"
-    if fmt == "ply_ascii":
-        data = obj.export(file_type="ply", encoding="ascii")
+    if fmt in ("ply", "ply_ascii"):
+        kw = {k: v for k, v in opts.items() if k in ("vertex_normal", "include_attributes") and v is not None}
+        data = obj.export(file_type="ply", encoding="ascii" if fmt == "ply_ascii" else "binary", **kw)
         return {"model.ply": data if isinstance(data, bytes) else data.encode()}, "model.ply", "ply"
+    if fmt == "off" and opts.get("digits"):
+        data = obj.export(file_type="off", digits=int(opts["digits"]))
+        return {"model.off": data.encode() if isinstance(data, str) else data}, "model.off", "off"
+    if fmt == "glb":
+        kw = {k: v for k, v in opts.items() if k in ("include_normals", "unitize_normals") and v is not None}
+        data = obj.export(file_type="glb", **kw)
+        return {"model.glb": data}, "model.glb", "glb"
     if fmt == "gltf":
-        data = obj.export(file_type="gltf")
+        kw = {k: v for k, v in opts.items() if k in ("include_normals", "merge_buffers", "embed_buffers") and v is not None}
+        data = obj.export(file_type="gltf", **kw)
         return {k: (v if isinstance(v, bytes) else v.encode()) for k, v in data.items()}, "model.gltf", "gltf"
     if fmt == "obj":
-        data = obj.export(file_type="obj", **{k: v for k, v in opts.items() if k in ("digits", "include_normals", "include_color")})
+        data = obj.export(file_type="obj", **{k: v for k, v in opts.items() if k in ("digits", "include_normals", "include_color") and v is not None})
         if isinstance(data, tuple):
             text, extra = data
             files = {"model.obj": text.encode() if isinstance(text, str) else text}
